@@ -39,6 +39,7 @@ var Deviants = []string{
 	"FileStat:wrong-size", "FileStat:wrong-mode", "FileStat:stale-size",
 	"ReadDir:missing-entry", "ReadDir:duplicate-entry", "ReadDir:wrong-isdir", "ReadDir:no-eof", "ReadDir:ignores-n",
 	"ReadDir:duplicate-in-subdir", "Rename:dest-listed-twice-in-subdir", "Mkdir:listed-twice-in-subdir",
+	"ReadDir:cursor-stuck", "ReadDir:second-page-empty-nil",
 	// an operation that should succeed fails with an "operation not supported" errno that is NOT ErrNotImplemented
 	"Rename:fails-eopnotsupp", "Rename:cross-dir-fails-enotsup", "Mkdir:fails-eopnotsupp", "MkdirAll:fails-enotsup", "Remove:fails-eopnotsupp", "Chmod:fails-enotsup", "Chtimes:fails-eopnotsupp", "OpenFile:create-fails-eopnotsupp",
 }
@@ -432,6 +433,7 @@ type devFile struct {
 	name      string
 	closed    bool
 	lateEOF   int
+	pages     int
 	openSize  int64
 	delivered bool
 }
@@ -541,6 +543,24 @@ func (f *devFile) Read(p []byte) (int, error) {
 
 func (f *devFile) ReadDir(n int) ([]hackpadfs.DirEntry, error) {
 	d := f.d
+	if d.is("ReadDir:cursor-stuck") && n > 0 {
+		// every page is read from a fresh handle: the cursor never advances, io.EOF is never reached on a non-empty directory
+		if g, err := d.inner.Open(f.name); err == nil {
+			defer func() { _ = g.Close() }()
+			entries, err := hackpadfs.ReadDirFile(g, n)
+			if f.pages > 0 && len(entries) > 0 {
+				d.fire()
+			}
+			f.pages++
+			return entries, err
+		}
+	}
+	if d.is("ReadDir:second-page-empty-nil") && n > 0 && f.pages > 0 {
+		f.pages++
+		d.fire()
+		return nil, nil
+	}
+	f.pages++
 	if d.is("ReadDir:ignores-n") && n > 0 {
 		d.fire()
 		n = -1
